@@ -189,6 +189,7 @@ Fixpoint parse_edge (fuel : nat) (ty : Z) (s : slice) (m : Z) (prefix : list boo
   | O => Err ERecursion
   | S f =>
     bind (deserialize_hml s m) (fun '(l, suffix, s1) =>
+    if (m <? Z.of_nat l)%Z then Err EValue else      (* label longer than the remaining key *)
     let prefix' := prefix ++ suffix in
     let m' := (m - Z.of_nat l)%Z in
     if negb (ty =? ty_ordinary)%Z then Ok []
@@ -234,6 +235,7 @@ Fixpoint parse_aug_edge (fuel : nat) (ylen : nat) (ty : Z) (s : slice) (m : Z) (
     if negb (ty =? ty_ordinary)%Z then Ok ([], [])
     else
     bind (deserialize_hml s m) (fun '(l, suffix, s1) =>
+    if (m <? Z.of_nat l)%Z then Err EValue else      (* label longer than the remaining key *)
     let prefix' := prefix ++ suffix in
     let m' := (m - Z.of_nat l)%Z in
     if (m' =? 0)%Z then
